@@ -57,7 +57,12 @@ template <typename Real, size_t Bits, typename RNG>
         factor *= r;
     }
 
-    return result / factor;
+    // Rounding in the conversions and in the division can produce 1.0: the result has to be less than one.
+    auto const ret = result / factor;
+    if (ret >= Real{1}) {
+        return Real{1} - numeric_limits<Real>::epsilon() / Real{2};
+    }
+    return ret;
 }
 
 } // namespace etl
